@@ -189,18 +189,205 @@ pub const SPEC: MbSpec = MbSpec {
 pub fn run(ctx: &RunCtx) -> Vec<PartOutcome> {
     let n = ctx.tier.pick(6_000, 100_000);
     let max_ops = ctx.tier.pick(40, 100);
-    vec![explore(
-        ctx,
-        "history",
-        n,
-        || sc_strategy(SPEC.ncfg, max_ops),
-        |c: &ScCase, st: &mut Stats| run_case(&SPEC, c, st),
-    )]
+    use proptest::prelude::*;
+    vec![
+        explore(
+            ctx,
+            "history",
+            n,
+            || sc_strategy(SPEC.ncfg, max_ops),
+            |c: &ScCase, st: &mut Stats| run_case(&SPEC, c, st),
+        ),
+        explore(
+            ctx,
+            "crowded",
+            ctx.tier.pick(300, 5_000),
+            || prop::collection::vec(any::<u16>(), 120).prop_map(|seeds| CrowdCase { seeds }),
+            check_crowded,
+        ),
+    ]
 }
 
 pub fn replay(part: &str, input: &Value) -> Option<Result<Result<(), Viol>, String>> {
     match part {
         "history" => Some(replay_input::<ScCase>(input, |c, st| run_case(&SPEC, c, st))),
+        "crowded" => Some(replay_input::<CrowdCase>(input, check_crowded)),
         _ => None,
     }
+}
+
+// ---------------------------------------------------------------------------------------------
+// crowded: rosters larger than the reply chunk sizes (20 names per 353, 30 channels per 319,
+// 20 nicks per 303/302 line).  Truth is tracked directly; NAMES / WHO / WHOIS must list it exactly.
+
+#[derive(Clone, Debug, serde_derive::Serialize, serde_derive::Deserialize)]
+pub struct CrowdCase {
+    pub seeds: Vec<u16>,
+}
+
+pub fn check_crowded(c: &CrowdCase, st: &mut Stats) -> Result<(), Viol> {
+    use crate::sim::World;
+    let mut s = S::new(&c.seeds);
+    let seed = s.raw() as u64;
+    let n = 18 + s.pick(30);
+    let mut w = World::new(CfgSpec::default().to_main_config(), seed);
+    let mut log: Vec<String> = vec![];
+    let mut members: BTreeSet<usize> = BTreeSet::new();
+    let mut nick: Vec<String> = vec![];
+    for i in 0..n {
+        let c = w.connect();
+        nick.push(format!("m{}", i));
+        w.send_line(c, &format!("NICK m{}", i));
+        w.send_line(c, &format!("USER u{} 0 * :Crowd {}", i, i));
+        w.settle();
+        w.drain(c);
+    }
+    let outsider = n - 1;
+    for i in 0..(n - 1) {
+        if i == 0 || s.chance(92) {
+            w.send_line(i, "JOIN #big");
+            members.insert(i);
+        }
+    }
+    w.settle();
+    // one user sits on many channels (319 chunking)
+    let many = 25 + s.pick(20);
+    let mut list = vec![];
+    for k in 0..many {
+        list.push(format!("#w{}", k));
+    }
+    w.send_line(1, &format!("JOIN {}", list.join(",")));
+    w.settle();
+    for i in 0..n {
+        w.drain(i);
+    }
+    let fail = |pred: &str, msg: String, log: &Vec<String>| Viol::new(pred, pred.split('.').last().unwrap_or("").to_string(), msg).with_transcript(log.iter().rev().take(30).rev().cloned().collect());
+    let names_of = |w: &mut World, viewer: usize, log: &mut Vec<String>| -> (BTreeSet<String>, BTreeSet<String>) {
+        w.send_line(viewer, "NAMES #big");
+        w.settle();
+        let a = w.drain(viewer);
+        w.send_line(viewer, "WHO #big");
+        w.settle();
+        let b = w.drain(viewer);
+        let mut nm = BTreeSet::new();
+        let mut wh = BTreeSet::new();
+        for l in a.iter().chain(b.iter()) {
+            if let Ok(m) = crate::refparse::parse(l) {
+                if m.command == "353" {
+                    for e in m.params.last().unwrap().split(' ').filter(|x| !x.is_empty()) {
+                        nm.insert(e.trim_start_matches(|c| "~&@%+".contains(c)).to_string());
+                    }
+                } else if m.command == "352" {
+                    wh.insert(m.params[5].clone());
+                }
+            }
+        }
+        log.push(format!("viewer c{}: NAMES {} entries, WHO {} entries", viewer, nm.len(), wh.len()));
+        (nm, wh)
+    };
+    let rounds = 2 + s.pick(4);
+    for r in 0..=rounds {
+        let truth: BTreeSet<String> = members.iter().map(|i| nick[*i].clone()).collect();
+        for viewer in [0usize, outsider] {
+            let (nm, wh) = names_of(&mut w, viewer, &mut log);
+            if nm != truth || wh != truth {
+                return Err(fail(
+                    "C04.crowded_roster",
+                    format!(
+                        "#big has {} members; viewer c{} sees {} in NAMES and {} in WHO; missing from NAMES {:?}, extra in NAMES {:?}, missing from WHO {:?}",
+                        truth.len(),
+                        viewer,
+                        nm.len(),
+                        wh.len(),
+                        truth.difference(&nm).take(5).collect::<Vec<_>>(),
+                        nm.difference(&truth).take(5).collect::<Vec<_>>(),
+                        truth.difference(&wh).take(5).collect::<Vec<_>>()
+                    ),
+                    &log,
+                ));
+            }
+        }
+        // WHOIS of the user on many channels lists every one of them
+        w.send_line(outsider, &format!("WHOIS {}", nick[1]));
+        w.settle();
+        let ls = w.drain(outsider);
+        let mut chans = BTreeSet::new();
+        for l in &ls {
+            if let Ok(m) = crate::refparse::parse(l) {
+                if m.command == "319" {
+                    for e in m.params.last().unwrap().split(' ').filter(|x| !x.is_empty()) {
+                        chans.insert(e.trim_start_matches(|c| "~&@%+".contains(c)).to_string());
+                    }
+                }
+            }
+        }
+        let mut want: BTreeSet<String> = list.iter().cloned().collect();
+        if members.contains(&1) {
+            want.insert("#big".into());
+        }
+        if chans != want {
+            return Err(fail("C04.crowded_whois", format!("WHOIS {} lists {} channels, it is on {}: missing {:?}", nick[1], chans.len(), want.len(), want.difference(&chans).take(5).collect::<Vec<_>>()), &log));
+        }
+        // presence of everybody in one ISON
+        w.send_line(0, &format!("ISON {}", nick.join(" ")));
+        w.settle();
+        let ls = w.drain(0);
+        let mut on = BTreeSet::new();
+        for l in &ls {
+            if let Ok(m) = crate::refparse::parse(l) {
+                if m.command == "303" {
+                    for e in m.params.last().unwrap().split(' ').filter(|x| !x.is_empty()) {
+                        on.insert(e.to_string());
+                    }
+                }
+            }
+        }
+        let all: BTreeSet<String> = nick.iter().cloned().collect();
+        if on != all {
+            return Err(fail("C04.crowded_ison", format!("ISON of {} registered nicks answered {}", all.len(), on.len()), &log));
+        }
+        if r == rounds {
+            break;
+        }
+        // churn: a few PART / KICK / NICK / JOIN
+        for _ in 0..(1 + s.pick(6)) {
+            let i = s.pick(n - 1);
+            match s.pick(4) {
+                0 if members.contains(&i) && i != 0 => {
+                    w.send_line(i, "PART #big");
+                    members.remove(&i);
+                    log.push(format!("{} parts", nick[i]));
+                }
+                1 if members.contains(&i) && i != 0 => {
+                    w.send_line(0, &format!("KICK #big {}", nick[i]));
+                    members.remove(&i);
+                    log.push(format!("{} kicked", nick[i]));
+                }
+                2 => {
+                    let nn = format!("{}x", nick[i]);
+                    w.send_line(i, &format!("NICK {}", nn));
+                    log.push(format!("{} -> {}", nick[i], nn));
+                    nick[i] = nn;
+                }
+                _ if !members.contains(&i) => {
+                    w.send_line(i, "JOIN #big");
+                    members.insert(i);
+                    log.push(format!("{} joins", nick[i]));
+                }
+                _ => {}
+            }
+            w.settle();
+        }
+        for i in 0..n {
+            w.drain(i);
+        }
+    }
+    for p in crate::sim::take_panics() {
+        if p.task.is_some() {
+            return Err(fail("C04.crowded_roster", format!("handler aborted: {} at {}", p.msg, p.loc), &log));
+        }
+    }
+    crate::sim::set_in_sim(false);
+    st.nontrivial(format!("n{}|w{}|r{}", members.len() / 5, many / 10, rounds), || serde_json::json!({"members": members.len(), "channels_of_m1": many, "rounds": rounds}));
+    Ok(())
 }
